@@ -119,6 +119,18 @@ func matrixCorpora(thorough bool) ([]*shardCase, error) {
 			wl = 7
 		}
 		add("words", false, gen.DocsCorpus("docs/words", 13, []string{"a", "-", "x", " ", "\n"}, wl, 0))
+		// token documents: every sequence of up to 5 (6) tokens over {abc, abd, newline, space, xyz}
+		// puts two literals of >= 3 runes on the same / adjacent / distant lines (pre-filters that
+		// combine several trigram iterators, the same-line optimisation)
+		tl := 5
+		if thorough {
+			tl = 6
+		}
+		tok := &ref.Repo{Name: "docs/tokens", ID: 14, Branches: []string{"HEAD"}}
+		for i, s := range gen.AllStrings([]string{"abc", "abd", "\n", " ", "xyz"}, tl) {
+			tok.Docs = append(tok.Docs, &ref.Doc{Name: gen.NameOf(i), Content: []byte(s), Branches: []string{"HEAD"}, Language: "Text"})
+		}
+		add("tokens", false, tok)
 		add("compound", true, gen.CompoundCorpus()...)
 		add("symbols", false, gen.SymbolCorpus())
 		// tombstoned repository inside a compound shard + skipped documents
@@ -171,6 +183,14 @@ func matrixCorpora(thorough bool) ([]*shardCase, error) {
 func matrixQueries(sc *shardCase, thorough bool) []query.Q {
 	var qs []query.Q
 	switch {
+	case sc.name == "tokens":
+		res := []string{"abc.*abd", "abc(?s:.*)abd", "(?s)abc.*abd", "abd(?s:.*)abc", "abc[^x]*abd", "abc\\s+abd", "abc\nabd", "abc(?:\n| )abd", "abc.*xyz.*abd", "abc(?s:.*)xyz(?s:.*)abd",
+			"(abc|abd)xyz", "abc(abd)?xyz", "(?:abc){2}", "(?:abc ){2,}", "abc$", "^abd", "(?m:^abc$)", "abcabd|abdabc", "abc.abd", "abc(?s:.)abd", "(?i)ABC.*abd", "abc.*", ".*abd", "(?s:.*)abd", "abc\\b.*\\babd", "[a-c]{3} [a-d]{3}"}
+		qs = append(qs, gen.RegexpAtoms(res, [][2]bool{{false, true}})...)
+		qs = append(qs, gen.SubstringAtoms([]string{"abc", "abcabd", "abc abd", "abc\nabd", "abd\nabc", "c\na", "abc xyz abd", "bcab", "cxyza"}, [][2]bool{{false, true}})...)
+		two := gen.SubstringAtoms([]string{"abc", "abd", "xyz"}, [][2]bool{{false, true}})
+		two = append(two, gen.RegexpAtoms([]string{"abc.*abd", "abd(?s:.*)abc"}, [][2]bool{{false, true}})...)
+		qs = append(qs, gen.Combine(two, 1)...)
 	case sc.name == "words":
 		qs = append(qs, gen.RegexpAtoms([]string{`\ba\b`, `\baa\b`, `\ba-a\b`, `\b-a\b`, `\ba-\b`, `\bxa\b`, `\b-\b`, `\ba a\b`, `\bax\b`, `\baxa\b`, `\b--\b`, `\ba-a-a\b`, `\bxax\b`, `\ba\na\b`, `\Ba\B`, `\ba`, `a\b`}, [][2]bool{{false, true}})...)
 		qs = append(qs, gen.SubstringAtoms([]string{"a-a", "a-a-a", "xax", "-a-", "aaa", "a a"}, [][2]bool{{false, true}})...)
@@ -215,7 +235,7 @@ func matrixQueries(sc *shardCase, thorough bool) []query.Q {
 		}
 	case sc.name == "long":
 		qs = append(qs, gen.SubstringAtoms([]string{"abc", "éab", "abcabc", "abd", "x", "é", "€y", "c t", "yxé€", "y\nx", "abc tail", "b Éab"}, gen.FieldModes)...)
-		qs = append(qs, gen.RegexpAtoms([]string{"abc|abd", "a.c", `\babc\b`, "é€", "tail$", "^xé", "(?:abc){2}", "€y\n"}, [][2]bool{{false, true}})...)
+		qs = append(qs, gen.RegexpAtoms([]string{"abc|abd", "a.c", `\babc\b`, "é€", "tail$", "^xé", "(?:abc){2}", "€y\n", "abc(?s:.*)abd", "abcabc(?s:.)abd", "abc.*abd", "é(?s:.*)tail"}, [][2]bool{{false, true}})...)
 	}
 	return qs
 }
